@@ -48,11 +48,13 @@ type WindowStats struct {
 	Executed    int      `json:"unknown_field_resolvers_run"`
 	Cached      int      `json:"unknown_field_documents_cached"`
 	Panics      int      `json:"panics"`
+	Poisoned    int      `json:"trials_leaving_a_nil_rule_behind"`
 	TrialsHit   int      `json:"trials_with_acceptance"`
 	FirstHit    int      `json:"first_hit_trial"`
 	PanicText   string   `json:"panic_text,omitempty"`
 	Example     []string `json:"example_events,omitempty"`
 	ExampleData string   `json:"example_response,omitempty"`
+	Damaged     string   `json:"rule_slice_damaged_beyond_repair,omitempty"`
 	WallS       float64  `json:"wall_s"`
 }
 
@@ -66,7 +68,10 @@ func RunWindow(es *ES, k int, maxTrials int, budget time.Duration, stopAtHits in
 	t0 := time.Now()
 	queries := []string{"{ nosuch }", "{ name zzz }", "{ user { nosuch } }"}
 	for trial := 0; trial < maxTrials && time.Since(t0) < budget; trial++ {
-		ResetRules()
+		if err := SafeReset(es.schema); err != nil {
+			st.Damaged = fmt.Sprintf("after trial %d: %v", trial, err)
+			break
+		}
 		ex := executor.New(es)
 		ex.SetDisableSuggestion(true)
 		bc := &barrierCache{k: int32(k)}
@@ -111,6 +116,20 @@ func RunWindow(es *ES, k int, maxTrials int, budget time.Duration, stopAtHits in
 		}
 		wg.Wait()
 		st.Trials++
+		st.Cached += int(bc.added.Load())
+		// is the rule set left with a nil rule? a later, sequential, valid
+		// request then panics too
+		func() {
+			defer func() {
+				if p := recover(); p != nil {
+					st.Poisoned++
+				}
+			}()
+			ri := &ReqInfo{ID: k + 1, Rej: Rej{K: "none"}, T: &Tracer{}, QID: func(string) string { return "QV" }}
+			ctx := WithInfo(graphql.StartOperationTrace(context.Background()), ri)
+			bc.arrived.Add(int32(k))
+			_, _ = ex.CreateOperationContext(ctx, &graphql.RawParams{Query: "{ name }"})
+		}()
 		nres := 0
 		for _, e := range tr.Events() {
 			if ev, ok := e.(Ev); ok && ev.K == "res" {
@@ -118,7 +137,6 @@ func RunWindow(es *ES, k int, maxTrials int, budget time.Duration, stopAtHits in
 			}
 		}
 		st.Executed += nres
-		st.Cached += int(bc.added.Load())
 		if hit {
 			st.TrialsHit++
 			if st.FirstHit < 0 {
@@ -134,7 +152,6 @@ func RunWindow(es *ES, k int, maxTrials int, budget time.Duration, stopAtHits in
 			}
 		}
 	}
-	ResetRules()
 	st.WallS = time.Since(t0).Seconds()
 	return st
 }
